@@ -6,6 +6,7 @@ Local Open Scope Z_scope.
 Definition ex_opts : opts :=
   mk [(O_set_chunker, CHUNKER_FIXED); (O_set_chunk_size, 8000); (O_set_compression, 3);
       (O_set_datapack_growfactor, 4294967295); (O_set_max_packsize_tolerate_percent, 0)].
+Definition stored_field_ex (x : option config) (g : N) : option Z := match x with Some c => c g | None => None end.
 Definition ex_stored : config := mk [(C_version, 2); (C_id, 7); (C_chunker_polynomial, 9); (C_extra_verify, 0)].
 
 (* an accepted change; extra_verify and id are not named and stay *)
@@ -20,11 +21,20 @@ Proof. vm_compute. intros f H. repeat (destruct H as [H|H]; [inv H; try reflexiv
 (* a refused downgrade, a refused version 3, a refused change on an append-only repository *)
 Example ex_downgrade : apply (mk [(O_set_version, 1)]) ex_stored = None.
 Proof. vm_compute. reflexivity. Qed.
+Definition ex_store : store := mkstore (Some ex_stored) None.
 Example ex_refused_no_write : exists site,
-  apply_config (mk [(O_set_version, 3); (O_set_compression, 5)]) ex_stored = ([], ex_stored, RRefused site).
+  apply_config false (mk [(O_set_version, 3); (O_set_compression, 5)]) ex_stored ex_store = (ex_store, ex_stored, RRefused site).
 Proof. vm_compute. eexists. reflexivity. Qed.
-Example ex_changed_one_write : exists w s', apply_config ex_opts ex_stored = ([w], s', RChanged).
+Example ex_changed_one_write : exists w s', apply_config false ex_opts ex_stored ex_store = (mkstore (Some w) None, s', RChanged).
 Proof. vm_compute. do 2 eexists. reflexivity. Qed.
+(* a hot/cold repository: init, an effective change, the three ways of opening *)
+Example ex_hot_history :
+  exists st0 mem0 st mem,
+    init_repo true ex_opts 7 9 = (st0, mem0, Done) /\
+    apply_configs true [mk [(O_set_compression, 7)]; mk [(O_set_version, 1)]] mem0 st0 = (st, mem) /\
+    stored_field_ex (st_cold st) C_is_hot = None /\ stored_field_ex (st_hot st) C_is_hot = Some 1 /\
+    stored_field_ex (st_cold st) C_compression = Some 7 /\ stored_field_ex (st_hot st) C_compression = Some 7.
+Proof. vm_compute. do 4 eexists. repeat split. Qed.
 (* limits: the formerly panicking percentages now have values *)
 Example ex_limits : max_unused_limit false (Percentage 100) 1000 1000 = Some 18446744073709551615 /\
                     max_unused_limit false (Percentage 50) 1000 1000 = Some 1000 /\
